@@ -493,8 +493,10 @@ class Check:
             "wall_s": round(wall, 2),
             "violations": nviol,
         }
-        d = VERIF / "evidence"
-        d.mkdir(exist_ok=True)
+        # runs against a scratch tree (VERIF_REPO set, e.g. tools/seeded_run.py) must not overwrite the
+        # committed evidence, which describes /repo itself
+        d = VERIF / "evidence" if str(REPO) == "/repo" else VERIF / "replays" / "evidence_scratch"
+        d.mkdir(parents=True, exist_ok=True)
         (d / f"{self.prop}.json").write_text(json.dumps(ev, indent=1, default=_json_default))
 
 
